@@ -58,7 +58,7 @@ func genMulti(t *rapid.T, c *core.Ctx, mo multiOpts) *multiCase {
 		HostileText: mo.hostileText, Avoid: c.Avoid, Excluded: c.ExcludedMap(), Sat: docs.Satisfiable,
 	}
 	if mo.bigMaps {
-		prof.MinProps, prof.MaxProps, prof.MaxDefs, prof.MinDefs = 6, 12, 8, 4
+		prof.MinProps, prof.MaxProps, prof.MaxDefs, prof.MinDefs = 6, 14, 8, 4
 	}
 	m := &multiCase{pkgOf: map[string]string{}, outOf: map[string]string{}, rootOf: map[string]string{}}
 	ids := rapid.Permutation(idPool).Draw(t, "ids")
